@@ -195,6 +195,11 @@ class Run:
             "explanation": self.explanation,
         }
         cov.update(self.notes)
+        if not isinstance(cov.get("programs", 0), int):
+            # EVIDENCE schema: coverage.programs is a count; the names go to program_names
+            names = cov.pop("programs")
+            cov["program_names"] = names
+            cov["programs"] = len({n for v in (names.values() if isinstance(names, dict) else [names]) for n in v})
         ev = {
             "property_id": self.prop,
             "tier": self.tier,
